@@ -34,6 +34,8 @@ def enc(v):
         return int(v)
     if isinstance(v, float):
         return {"f": v}
+    if isinstance(v, complex):
+        return {"c": [v.real, v.imag]}
     if isinstance(v, Box):
         return {"box": [enc(x) for x in v.items]}
     if isinstance(v, tuple):
@@ -67,6 +69,8 @@ def dec(v):
             return Box(dec(x) for x in v["box"])
         if "f" in v:
             return float(v["f"])
+        if "c" in v:
+            return complex(v["c"][0], v["c"][1])
         if "t" in v:
             return tuple(dec(x) for x in v["t"])
         if "l" in v:
@@ -97,6 +101,8 @@ def fresh(v):
         return int(str(v))
     if t is tuple:
         return tuple(fresh(x) for x in v)
+    if t is complex:
+        return complex(v.real, v.imag)
     if t.__module__ == "numpy" and t.__name__.startswith(("int", "uint")):
         return t(int(v))
     return v
